@@ -170,6 +170,19 @@ def pose(ori, centre):
     return np.ascontiguousarray(T)
 
 
+_HULL_REF = {}
+
+
+def _hull_ref(s, ori, kind):
+    key = (s[0], s[1], ori, kind)
+    if key not in _HULL_REF:
+        v, _ = mesh_data(s[0])
+        H = rs.Hull((v * s[1]) @ ROTS[ori].T, kind)
+        H._facets()
+        _HULL_REF[key] = H
+    return _HULL_REF[key]
+
+
 def build(t, size, ori, centre, margin=0.0, want_impl=True, want_ref=True):
     """Returns (collider or None, refshape or None).  centre = position of the pose origin."""
     from distance3d import colliders as C
@@ -225,14 +238,14 @@ def build(t, size, ori, centre, margin=0.0, want_impl=True, want_ref=True):
         if want_impl:
             impl = C.MeshGraph(T.copy(), v.copy(), tri.copy())
         if want_ref:
-            ref = rs.Hull(v @ T[:3, :3].T + centre, "mesh")
+            ref = _hull_ref(s, ori, "mesh").translated(centre)
     elif t == "hull":
         v, tri = mesh_data(s[0])
         w = np.ascontiguousarray((v * s[1]) @ T[:3, :3].T + centre)
         if want_impl:
             impl = C.ConvexHullVertices(w.copy())
         if want_ref:
-            ref = rs.Hull(w, "hull")
+            ref = _hull_ref(s, ori, "hull").translated(centre)
     else:
         raise ValueError(t)
     if margin:
